@@ -56,7 +56,7 @@ creadMM(FILE *fp, int *m, int *n, int_t *nonz,
      fgets(line,512,fp);
      for (p=line; *p!='\0'; *p=tolower(*p),p++);
 
-     if (sscanf(line, "%s %s %s %s %s", banner, mtx, crd, arith, sym) != 5) {
+     if (sscanf(line, "%63s %63s %63s %63s %63s", banner, mtx, crd, arith, sym) != 5) {
        printf("Invalid header (first line does not contain 5 tokens)\n");
        exit(-1);
      }
@@ -99,7 +99,7 @@ creadMM(FILE *fp, int *m, int *n, int_t *nonz,
      /* 2/ Skip comments */
      while(banner[0]=='%') {
        fgets(line,512,fp);
-       sscanf(line,"%s",banner);
+       sscanf(line,"%63s",banner); /* banner[] has 64 bytes */
      }
 
      /* 3/ Read n and nnz */
